@@ -21,7 +21,7 @@ fn launches(tier: Tier, cmd: &str) -> usize {
 
 // Inputs built to produce several diagnostics whose relative order could depend on iteration order.
 pub fn multi_diagnostic_program(r: &mut Rng) -> String {
-    match r.below(7) {
+    match r.below(10) {
         0 | 1 | 2 => {
             // definition-order violations with several independent forward references
             let n = 3 + r.usize(6);
@@ -75,10 +75,58 @@ pub fn multi_diagnostic_program(r: &mut Rng) -> String {
             let parts: Vec<&str> = (0..k).map(|_| ["(1 + ", "if 1 then", "x = ", ") )", "(a b", "{x : } => 1", "1 +* 2"][r.usize(7)]).collect();
             parts.join(["\n", "; ", " "][r.usize(3)])
         }
+        6 | 7 => {
+            // names that differ only in case, by an underscore or by a digit, defined in one group
+            // and in nested binders, and unbound look-alikes used several times (what a "did you
+            // mean" or a sorted report would iterate over)
+            let stem = ["nat", "elem", "é", "x"][r.usize(4)];
+            let variants = |st: &str| -> Vec<String> {
+                let up = st.to_uppercase();
+                let mut cap = st.to_owned();
+                if let Some(c) = st.chars().next() {
+                    cap = format!("{}{}", c.to_uppercase(), &st[c.len_utf8()..]);
+                }
+                vec![st.to_owned(), up, cap, format!("{st}_"), format!("_{st}"), format!("{st}1"), format!("{st}2")]
+            };
+            let vs = variants(stem);
+            let defined: Vec<String> = vs.iter().filter(|_| r.chance(2, 3)).cloned().collect();
+            let mut s = String::new();
+            for (i, d) in defined.iter().enumerate() {
+                s.push_str(&format!("{d} = {i}{}", if r.chance(1, 2) { "; " } else { "\n" }));
+            }
+            let k = 2 + r.usize(4);
+            let mut uses = vec![];
+            for _ in 0..k {
+                uses.push(match r.below(3) {
+                    0 => vs[r.usize(vs.len())].clone(),
+                    1 => format!("(({} : int) => {})", vs[r.usize(vs.len())], vs[r.usize(vs.len())]),
+                    _ => format!("{}{}", stem.to_uppercase(), ["", "S", "_"][r.usize(3)]),
+                });
+            }
+            s.push_str(&uses.join(" + "));
+            s
+        }
+        8 => {
+            // a generated program, usually with one planted fault (realistic type diagnostics)
+            let mode = if r.chance(1, 2) { crate::gen_prog::Mode::Explicit } else { crate::gen_prog::Mode::Inferred };
+            let p = crate::gen_prog::gen_program_with(r, mode, &crate::gen_prog::GT::Int, false);
+            let h = if r.chance(2, 3) { crate::perturb::perturb(&p.h, r).map_or(p.h.clone(), |x| x.0) } else { p.h.clone() };
+            crate::printer::print(&h, &crate::printer::Style::plain(), 0).text
+        }
         _ => {
             let c = crate::corpus::all();
             c[r.usize(c.len())].clone()
         }
+    }
+}
+
+// Programs that evaluate for a noticeable time (seconds): anything that depends on elapsed time,
+// on the scheduler or on memory addresses has its chance to show.
+pub fn slow_program(i: u64) -> String {
+    match i % 3 {
+        0 => "fib : (int -> int) = (n : int) => if n < 2 then n else fib (n - 1) + fib (n - 2)\nfib 24".to_owned(),
+        1 => "even : (int -> bool) = (n : int) => if n == 0 then true else odd (n - 1)\nodd : (int -> bool) = (n : int) => if n == 0 then false else even (n - 1)\ncount : (int -> int) = (n : int) => if n <= 0 then 0 else (if even 600 then 1 else 0) + count (n - 1)\ncount 300".to_owned(),
+        _ => "ack : (int -> int -> int) = (m : int) => (n : int) => if m == 0 then n + 1 else if n == 0 then ack (m - 1) 1 else ack (m - 1) (ack m (n - 1))\nack 2 300".to_owned(),
     }
 }
 
@@ -88,7 +136,8 @@ fn check_file(ctx: &mut Ctx, content: &str, cli: bool, type_check_in_process: bo
     let mut diag_count = 0usize;
     for cmd in if cli { vec!["check", "run"] } else { vec![] } {
         let n = launches(ctx.tier, cmd);
-        let first = run_gram(&ctx.gram_bin, cmd, &path, Duration::from_secs(3));
+        let slow = ctx.section == "slow-runs";
+        let first = run_gram(&ctx.gram_bin, cmd, &path, Duration::from_secs(if slow { 120 } else { 3 }));
         if first.timed_out || first.stack_overflow() {
             ctx.inconclusive("diverging-input");
             continue;
@@ -98,7 +147,7 @@ fn check_file(ctx: &mut Ctx, content: &str, cli: bool, type_check_in_process: bo
         }
         let mut distinct = 1;
         for i in 1..n {
-            let o = run_gram(&ctx.gram_bin, cmd, &path, Duration::from_secs(10));
+            let o = run_gram(&ctx.gram_bin, cmd, &path, Duration::from_secs(if slow { 120 } else { 10 }));
             ctx.count("launches");
             if o.timed_out {
                 ctx.inconclusive("timeout");
@@ -180,8 +229,8 @@ impl Prop for C13P {
     }
     fn plan(&self, tier: Tier, _seed: u64) -> Plan {
         let mut p = Plan::new(
-            vec![sec("pinned", 160), sec("cli-files", tier.pick(60, 1200)), sec("in-process-files", tier.pick(4000, 80_000))],
-            "files built to produce several diagnostics at once (definition-order violations with 3-8 interdependent definitions, several unbound names/shadowings, several type errors, several parse errors) plus the corpus; cli-files are launched through `gram check` (6 quick / 24 thorough launches) and `gram run` (3 / 8) and compared byte for byte; every file is also run 20 times through tokenize+parse(+type_check) in-process, each repetition with fresh hash keys; non-trivial = distinct file with at least 3 diagnostics",
+            vec![sec("pinned", 160), sec("cli-files", tier.pick(60, 1200)), sec("in-process-files", tier.pick(4000, 80_000)), sec("slow-runs", tier.pick(1, 6))],
+            "files built to produce several diagnostics at once (definition-order violations with 3-8 interdependent definitions, several unbound names/shadowings, several type errors, several parse errors, look-alike names - case, underscore and digit variants - defined and unbound, generated programs with a planted fault) plus the corpus; slow-runs: programs that evaluate for seconds (naive Fibonacci, mutual recursion, Ackermann) through `gram run` and `gram check`; cli-files are launched through `gram check` (6 quick / 24 thorough launches) and `gram run` (3 / 8) and compared byte for byte; every file is also run 20 times through tokenize+parse(+type_check) in-process, each repetition with fresh hash keys; non-trivial = distinct file with at least 3 diagnostics",
         );
         p.assumptions = vec!["each process launch and each HashSet::new() draws a fresh hash key (std RandomState)".into()];
         p.floor_evaluations = 100;
@@ -201,6 +250,11 @@ impl Prop for C13P {
                     let nw = crate::corpus::witnesses(&ctx.known_witnesses()).len();
                     check_file(ctx, p, (idx as usize) < nw || idx % 8 == 0, false);
                 }
+            }
+            "slow-runs" => {
+                let p = slow_program(idx);
+                ctx.count("slow-programs");
+                check_file(ctx, &p, true, false);
             }
             "cli-files" => {
                 let mut r = Rng::for_case(ctx.seed, 1, idx);
